@@ -14,12 +14,10 @@ from __future__ import annotations
 
 import copy
 import io
-import os
-import random
 
 from . import frames as F
 from . import refcrypto as rc
-from .simnet import CERTS, CLIENT_ADDR, CLIENT_ADDR2, SERVER_ADDR, ApiRaised, make_configs
+from .simnet import CLIENT_ADDR, SERVER_ADDR, ApiRaised, make_configs
 
 V1 = rc.V1
 V2 = rc.V2
@@ -637,6 +635,7 @@ def prepare(role, name, opts, seed):
         victim.request_key_update()
         victim.send_ping(78)
         drv.transmit()
+        peer.key_update()  # the victim now receives with the next key phase as well
     elif name == "close_pending":
         victim.close(error_code=0x33, reason_phrase="bye")
     elif name == "closing":
